@@ -1401,6 +1401,10 @@ func checkEquality(v1, v2 reflect.Value) bool {
 	}
 
 	kind := v1.Kind()
+	if (isInt(kind) || isUint(kind)) && isFloat(v2.Kind()) {
+		// compare as floats: converting the float to an integer would make 7 == 7.5 true
+		return toFloat(v1) == v2.Float()
+	}
 	if isInt(kind) {
 		return v1.Int() == toInt(v2)
 	}
